@@ -553,7 +553,7 @@ def progGeneric {S : Type} {F : Type} [FloatLike F] (ops : AccOps S) (kind : Str
   pure {
     needs := states.flatMap (ops.needs conf)
     run := fun crit impl =>
-      let qs := states.map (ops.query crit conf)
+      let qs := (states.map (ops.query crit conf)).map fun q => q ++ [Tok.s "|", Tok.s "hist:same"]
       let nq := r.queried.length
       let model := joinBar (qs.take nq ++ [[Tok.s "B"]] ++ qs.drop nq)
       -- oracle: the final state of the history reports the batch result, up to rounding error
@@ -564,7 +564,10 @@ def progGeneric {S : Type} {F : Type} [FloatLike F] (ops : AccOps S) (kind : Str
       let perQ := if nq == 0 then 1 else pre.length / nq
       let lastQ := pre.drop (pre.length - perQ)
       let flat (gs : List (List String)) : List String := " | ".intercalate (gs.map (" ".intercalate ·)) |>.splitOn " "
-      let cs :=
+      let hist := if groups.any (· == ["hist:DIFFERS"]) then ["query-result-depends-on-the-call-history"] else []
+      let lastQ := lastQ.filter (fun g => g != ["hist:same"] && g != ["hist:DIFFERS"])
+      let post := post.filter (fun g => g != ["hist:same"] && g != ["hist:DIFFERS"])
+      let cs := hist ++
         if nq == 0 then [] else
         match kind with
         | "prop" | "quant" =>
